@@ -289,12 +289,132 @@ func registration() {
 	b.Close()
 	vrt.Quiesce()
 }
+// finalizer: the peer's frames are already waiting when the endpoint is
+// built with EndPointFinalizer; the handlers its finalizer installs (after a
+// while) receive every one of them.
+func finalizer() {
+	ca, cb := vnet.NewPair("a", "b")
+	a := net.NewEndPoint(ca)
+	frameType = net.Post
+	for k := 0; k < 2; k++ {
+		id := uint32(100 + k)
+		if err := a.Send(net.NewMessage(net.NewHeader(net.Post, 1, 9, uint32(50+k), id), payload(id, sizes[(1+k)%len(sizes)]))); err != nil {
+			vrt.Failf("harness/send", "%v", err)
+		}
+	}
+	vrt.Quiesce()
+	vrt.Explore()
+	q1 := make(chan *net.Message, 8)
+	q2 := make(chan *net.Message, 8)
+	var b net.EndPoint
+	w := vrt.GoWorker("acceptor", func() {
+		b = net.EndPointFinalizer(cb, func(e net.EndPoint) {
+			vrt.Yield() // a finalizer that takes its time
+			e.MakeHandler(func(h *net.Header) (bool, bool) { return true, true }, q1, nil)
+			vrt.Yield()
+			e.MakeHandler(func(h *net.Header) (bool, bool) { return h.ID == 101, true }, q2, nil)
+		})
+	})
+	// a late sender races the construction as well
+	w2 := vrt.GoWorker("late-sender", func() {
+		a.Send(net.NewMessage(net.NewHeader(net.Post, 1, 9, 52, 102), payload(102, sizes[3%len(sizes)])))
+	})
+	vrt.Quiesce()
+	if !w.Done() || !w2.Done() {
+		vrt.Failf("hang/acceptor", "EndPointFinalizer or the sender did not return")
+	}
+	drain := func(q chan *net.Message) []uint32 {
+		var got []uint32
+		for len(q) > 0 {
+			m := <-q
+			if !intact(m) {
+				vrt.Failf("corrupt/all", "damaged frame: header %+v, %d payload bytes", m.Header, len(m.Payload))
+			}
+			got = append(got, m.Header.ID)
+		}
+		return got
+	}
+	if got := drain(q1); fmt.Sprint(got) != "[100 101 102]" {
+		vrt.Failf("missing/finalizer-handler", "the handler installed by the finalizer received %v of the frames [100 101 102] that were sent to the new endpoint", got)
+	}
+	if got := drain(q2); fmt.Sprint(got) != "[101]" {
+		vrt.Failf("missing/finalizer-handler", "the second handler installed by the finalizer received %v, its filter selects [101]", got)
+	}
+	vrt.Observe("ok")
+	a.Close()
+	b.Close()
+	vrt.Quiesce()
+}
+// limit: a frame of exactly the largest accepted payload size travels among
+// small ones from another sender.
+func limit() {
+	ca, cb := vnet.NewPair("a", "b")
+	a := net.NewEndPoint(ca)
+	q := make(chan *net.Message, 8)
+	b := net.EndPointFinalizer(cb, func(e net.EndPoint) {
+		e.MakeHandler(func(h *net.Header) (bool, bool) { return true, true }, q, nil)
+	})
+	big := make([]byte, net.MaxPayloadSize)
+	for i := 0; i < len(big); i += 4093 {
+		big[i] = byte(i)
+	}
+	big[len(big)-1] = 0x5a
+	vrt.Explore()
+	w1 := vrt.GoWorker("sender-big", func() {
+		a.Send(net.NewMessage(net.NewHeader(net.Post, 1, 9, 50, 100), big[:len(big)-1]))
+		a.Send(net.NewMessage(net.NewHeader(net.Post, 1, 9, 51, 101), big))
+		a.Send(net.NewMessage(net.NewHeader(net.Post, 1, 9, 52, 102), []byte{1}))
+	})
+	w2 := vrt.GoWorker("sender-small", func() {
+		a.Send(net.NewMessage(net.NewHeader(net.Post, 2, 9, 50, 200), []byte{2, 3}))
+		a.Send(net.NewMessage(net.NewHeader(net.Post, 2, 9, 51, 201), nil))
+	})
+	vrt.Quiesce()
+	if !w1.Done() || !w2.Done() {
+		vrt.Failf("hang/sender", "a sender is blocked")
+	}
+	var got1, got2 []uint32
+	for len(q) > 0 {
+		m := <-q
+		want := map[uint32]int{100: len(big) - 1, 101: len(big), 102: 1, 200: 2, 201: 0}[m.Header.ID]
+		ok := len(m.Payload) == want && int(m.Header.Size) == want
+		if ok && want >= len(big)-1 {
+			for i := 0; i < want; i += 4093 {
+				if m.Payload[i] != byte(i) {
+					ok = false
+				}
+			}
+			if want == len(big) && m.Payload[want-1] != 0x5a {
+				ok = false
+			}
+		}
+		if !ok {
+			vrt.Failf("corrupt/limit-size", "frame %d arrived with %d payload bytes (header size %d), %d were sent", m.Header.ID, len(m.Payload), m.Header.Size, want)
+		}
+		if m.Header.ID < 200 {
+			got1 = append(got1, m.Header.ID)
+		} else {
+			got2 = append(got2, m.Header.ID)
+		}
+	}
+	if fmt.Sprint(got1) != "[100 101 102]" || fmt.Sprint(got2) != "[200 201]" {
+		vrt.Failf("missing/limit-size", "with a frame of exactly MaxPayloadSize bytes among them the peer received %v and %v of [100 101 102] and [200 201]", got1, got2)
+	}
+	vrt.Observe("ok")
+	a.Close()
+	b.Close()
+	vrt.Quiesce()
+}
 
 func init() {
 	reg.Register(&reg.Scenario{Property: "C10", Name: "two-senders-one-frame-exhaustive", Body: light, Quick: 2, Thorough: 99,
 		Doc: "2 senders x 1 frame, one handler, no draining thread: the whole interleaving tree", MustFlag: []string{"sender-overtaken"}})
 	reg.Register(&reg.Scenario{Property: "C10", Name: "concurrent-registration", Body: registration, Quick: 2, Thorough: 99,
 		Doc: "two goroutines call MakeHandler on one endpoint at the same time; then two frames arrive: both handlers get both"})
+	reg.Register(&reg.Scenario{Property: "C10", Name: "finalizer-frames-waiting", Body: finalizer, Quick: 2, Thorough: 99,
+		Doc: "two frames are waiting and a third is being sent while EndPointFinalizer builds the endpoint; the handlers installed by a slow finalizer get every frame"})
+	reg.Register(&reg.Scenario{Property: "C10", Name: "limit-size-frame", Body: limit, Quick: 0, Thorough: 1,
+		Doc: "a sender sends payloads of MaxPayloadSize-1 and exactly MaxPayloadSize bytes, another sender small frames: all arrive intact, in each sender's order"})
 	reg.Register(&reg.Scenario{Property: "C10", Name: "calls-blocked-first-handler", Body: body(2, 2, false, net.Call, true), Quick: 2, Thorough: 4,
 		Doc: "2 senders x 2 Call frames; the first registered handler selects everything but never drains its 1-slot queue", MustFlag: []string{"sender-overtaken"}})
 	reg.Register(&reg.Scenario{Property: "C10", Name: "two-senders", Body: body(2, 2, false, net.Post, false), Quick: 2, Thorough: 5,
